@@ -3,6 +3,7 @@
 #include "common.hpp"
 #include "libphysica/Linear_Algebra.hpp"
 #include "libphysica/Special_Functions.hpp"
+#include <cfenv>
 #include <complex>
 using namespace libphysica;
 typedef std::complex<double> cd;
@@ -28,6 +29,25 @@ static cd Y_at(int l, int m, const double v[3])
 static void handler(vh::Reader& r, vh::Out& o)
 {
 	std::string op = r.word();
+	if(op == "fe")
+	{
+		// fe <mode> <case>: the case is run with the caller's rounding direction set to mode (0 to-nearest, 1 upward, 2 downward, 3 toward zero);
+		// the direction is process state the library does not own (a call that exits ends the process, the next one starts in the default mode)
+		static const int modes[4] = {FE_TONEAREST, FE_UPWARD, FE_DOWNWARD, FE_TOWARDZERO};
+		long mode = r.integer();
+		if(mode < 0 || mode > 3)
+		{
+			o.w("HARNESSERR bad_rounding_mode");
+			return;
+		}
+		std::fesetround(modes[mode]);
+		handler(r, o);
+		int now = std::fegetround();
+		std::fesetround(FE_TONEAREST);
+		if(now != modes[mode])
+			o.w("ROUNDING_MODE_CHANGED");
+		return;
+	}
 	if(op == "sign")
 		o.i(Sign(r.num()));
 	else if(op == "sign2")
@@ -97,6 +117,17 @@ static void handler(vh::Reader& r, vh::Out& o)
 		o.f(Erfi(x));
 		o.f(Erfi(-x));
 	}
+	else if(op == "spechist")
+	{
+		// a history of Dawson_Integral (0) / Erfi (1) requests in this process (the static exponential table lives across them)
+		long n = r.integer();
+		for(long k = 0; k < n; k++)
+		{
+			long kind = r.integer();
+			double x  = r.num();
+			o.f(kind == 1 ? Erfi(x) : Dawson_Integral(x));
+		}
+	}
 	else if(op == "inverf")
 		o.f(Inv_Erf(r.num()));
 	else if(op == "ycomp" || op == "psicomp")
@@ -158,6 +189,34 @@ static void handler(vh::Reader& r, vh::Out& o)
 					v[k] = n[k] + s * h * (q == 0 ? e1[k] : e2[k]);
 				putc(o, Y_at(l, m, v));
 			}
+	}
+	else if(op == "yhist")
+	{
+		// yhist nd th1 ph1 .. k (l m di)*k L M di: a history of scalar-harmonic requests over nd directions in ONE process (orders beyond the
+		// degree included: the answer is 0 by definition), every answer printed; then the two vector harmonics of (L, M) at direction di
+		long nd = r.integer();
+		std::vector<double> th(nd), ph(nd);
+		for(long i = 0; i < nd; i++)
+		{
+			th[i] = r.num();
+			ph[i] = r.num();
+		}
+		long k = r.integer();
+		for(long j = 0; j < k; j++)
+		{
+			int l = r.integer(), m = r.integer();
+			long di = r.integer();
+			putc(o, Spherical_Harmonics(l, m, th[di], ph[di]));
+		}
+		o.w("|");
+		int L = r.integer(), M = r.integer();
+		long di = r.integer();
+		for(auto& z : Vector_Spherical_Harmonics_Y(L, M, th[di], ph[di]))
+			putc(o, z);
+		for(auto& z : Vector_Spherical_Harmonics_Psi(L, M, th[di], ph[di]))
+			putc(o, z);
+		putc(o, Spherical_Harmonics(L, M, th[di], ph[di]));
+		putc(o, Spherical_Harmonics(L, -M, th[di], ph[di]));
 	}
 	else
 		o.w("HARNESSERR unknown_op");
